@@ -37,6 +37,18 @@ CLAIMS = {
    technique="static path summaries over select arms (go/ssa): transfer-iff-reported tables, comma-ok typestate, non-blocking/bounded loop shape",
    text="Because exactly one select arm runs, a path through the send/receive arm is a transfer and one through the timer/Done/default arm is not; the check shows each helper returns the constant true / the received (value, ok) exactly on transfer paths and false / (zero,false) exactly on the others, never transfers twice, treats non-positive timeouts as unlimited, and that the queued receivers accumulate only on the comma-ok true edge inside a bounded loop over a select with default.",
    note="Not decided: fairness between ready arms (either outcome allowed). Trusts Go's select and closed-channel semantics."),
+ "C04": dict(cat="other", sec="4 C04",
+   technique="static lock-set / typestate / atomic-protocol analysis over go/ssa path summaries with interprocedural requires-lock summaries",
+   text="Decides the necessary conditions of the read/dirty algorithm on all paths of all functions of sync2/map.go: guarded-by (dirty, misses, read.Store under mu, through callers for unexported helpers), lock pairing, atomic-only access to entry.p, re-check under the lock (no use of a pre-Lock snapshot after Lock), promotion only after a fresh amended/dirty-hit test, the CAS protocol on entry.p (expunged only by CAS from nil under mu, plain stores only under mu into non-expungeable entries), unexpunge-reinserts, amended-on-new-key, promotion pairing, read-map immutability, Range's promote-then-iterate-unlocked shape, no callback under the lock, and effect completeness of Store/Load/LoadOrStore/LoadAndDelete/Delete. Each violated rule corresponds to a data race or a lost/resurrected key under some schedule.",
+   note="NOT decided: linearizability proper (that the local disciplines compose), Range completeness, memory-model reasoning beyond lock/atomic protection - a static argument in reach cannot bound schedules; these necessary conditions are what is claimed."),
+ "C05": dict(cat="other", sec="4 C05",
+   technique="static wrapper-protocol check (one atomic map operation per path, flag mapping, counting closure) + the C04 map protocol rules",
+   text="Add/Remove/Has are each shown to be exactly one LoadOrStore/LoadAndDelete/Load of the value on the set's map whose own flag is reported (check-then-act is refuted), AddSet/RemoveSet to count exactly the per-element successes over a full enumeration, and Set to hold no state but the Map; the atomic-set property then reduces to the Map operations' atomicity, whose protocol rules (C04) are re-run as map/* obligations.",
+   note="Real-time ordering of successes follows from linearizability of Map, which is covered only by its necessary protocol conditions."),
+ "C09": dict(cat="other", sec="4 C09",
+   technique="static wrapper-protocol check (single LoadOrStore, operate on its result, method table, nothing held while blocking) + the C04 map protocol rules",
+   text="Every locking method is shown, on all paths, to perform exactly one LoadOrStore(key, fresh mutex) on the key map, to operate on that call's first result with exactly the matching sync.(RW)Mutex operation (Try* returning its result), with nothing else held or done around it; ClearKey = Delete(key). With the contracts of sync.Mutex/RWMutex and the atomicity of Map.LoadOrStore (map/* rules) this is per-key mutual exclusion and cross-key independence.",
+   note="Fairness and ClearKey under contention are outside the property. Map.LoadOrStore's atomicity is covered by necessary protocol conditions, not a linearizability proof."),
 }
 
 checks, na = [], []
